@@ -152,6 +152,13 @@ func c11Run(w *W) {
 			progs[t] = append(progs[t], c11Op{"Close", 0, 0})
 		}
 	}
+	for t, prog := range progs {
+		var names []string
+		for _, o := range prog {
+			names = append(names, o.kind)
+		}
+		w.Op("task%d: %v", t, names)
+	}
 	check := func(op string, err error) {
 		if !c11Allowed(op, err) {
 			w.Failf("C11/result-outside-contract:"+op, "%s on %s returned %v while other goroutines used the socket; its sequential contract allows %v", op, kind, err, c11OK[op])
